@@ -27,6 +27,13 @@ let install register get =
     match get kv "op" with
     | "lstat" -> look_str (FsTree.lstat tree p) (fun k -> "res=ok kind=" ^ kletter k)
     | "stat" -> look_str (FsTree.stat tree p) (fun k -> "res=ok kind=" ^ kletter k)
+    | "walk" ->
+      (* the client's traversal when the case is of kind fsop, filepath.Walk's specification when it is of kind fsspec *)
+      (match p with [] -> "skip" | _ ->
+       look_str (FsTree.lstat tree p) (fun k ->
+        let l = if spec then FsTree.spec_walk tree p k else FsTree.c_walk (S (FsTreeP.cnt tree p)) tree p k in
+        let ents = List.sort compare (List.map (fun (q, kq) -> str_of q ^ ":" ^ kletter kq) l) in
+        "res=ok ents=" ^ String.concat ";" ents))
     | "readdir" -> look_str (FsTree.stat tree p) (function
         | FsTree.KDir ->
           let ents = List.sort compare (List.map (fun (q, k) ->
